@@ -6,6 +6,7 @@ import (
 
 	"github.com/privacybydesign/gabi"
 	"github.com/privacybydesign/gabi/big"
+	"github.com/privacybydesign/gabi/rangeproof"
 )
 
 // C03: linked proofs share one secret key.
@@ -114,6 +115,11 @@ func genC03(g *Rng, tier string, emit func(Op)) {
 		for _, o := range pooledSecretsOps(g, kp) {
 			emit(o)
 		}
+	}
+	emit(declSk(ka))
+	for i := 0; i < 2; i++ {
+		emit(Op{"op": "list-shared-number", "class": "shared-number-object", "label": "reject", "nomodel": true, "fkey": "C03/shared-number-object",
+			"key": ka.id, "s1": hx(randSecret(g)), "s2": hx(randSecret(g)), "issig": i == 1})
 	}
 	secrets := []*big.Int{randSecret(g), randSecret(g), randSecret(g)}
 	for r := -3; r < rounds; r++ {
@@ -437,4 +443,46 @@ func pooledSecretsOps(g *Rng, kp *KeyPair) []Op {
 		}
 	}
 	return out
+}
+
+func init() {
+	// in-memory lists may share number objects between members (the prover passes pointers): two
+	// holders with different secrets, the second with a range statement on its secret key whose
+	// carried response is the very object of the first member's secret-key response. Verification
+	// reads its arguments; the verdict is that of the numbers as they were handed in.
+	executors["list-shared-number"] = func(o Op) string {
+		kp := execKey(o.str("key"))
+		pk := kp.pk
+		s1, s2 := unhx(o["s1"]), unhx(o["s2"])
+		c1 := issueCred(kp, s1, []*big.Int{bi(11), bi(12)})
+		c2 := issueCred(kp, s2, []*big.Int{bi(21), bi(22)})
+		b1, err := c1.CreateDisclosureProofBuilder([]int{1}, nil, false)
+		if err != nil {
+			return "builder-err"
+		}
+		st, err := rangeproof.NewStatement(rangeproof.GreaterOrEqual, bi(5))
+		if err != nil {
+			return "statement-err"
+		}
+		b2, err := c2.CreateDisclosureProofBuilder([]int{2}, map[int][]*rangeproof.Statement{0: {st}}, false)
+		if err != nil {
+			return "builder-err"
+		}
+		ctx, nonce := bi(1), bi(77)
+		pl, err := gabi.ProofBuilderList{b1, b2}.BuildProofList(ctx, nonce, o.boolean("issig"))
+		if err != nil {
+			return "build-err"
+		}
+		p1, p2 := pl[0].(*gabi.ProofD), pl[1].(*gabi.ProofD)
+		if len(p2.RangeProofs[0]) != 1 {
+			return "no-range-proof"
+		}
+		before := showInt(p1.AResponses[0])
+		p2.RangeProofs[0][0].MResponse = p1.AResponses[0]
+		v := verdict(pl.Verify([]*gabikeysPublicKey{pk, pk}, ctx, nonce, o.boolean("issig"), nil))
+		if showInt(p1.AResponses[0]) != before {
+			return "arguments-changed-" + v
+		}
+		return v
+	}
 }
